@@ -476,9 +476,14 @@ func TestPropRealBuild(t *testing.T) {
 		t.Skip(err)
 	}
 	defer os.RemoveAll(dir)
-	gomod := "module client\n\ngo 1.23\n\nrequire github.com/google/safehtml v0.0.0\n\nreplace github.com/google/safehtml => /repo\n"
+	// the library tree under test: /repo, or the scratch tree that bin/try-mutant points to
+	lib := os.Getenv("VERIF_LIBROOT")
+	if lib == "" {
+		lib = "/repo"
+	}
+	gomod := "module client\n\ngo 1.23\n\nrequire github.com/google/safehtml v0.0.0\n\nreplace github.com/google/safehtml => " + lib + "\n"
 	os.WriteFile(filepath.Join(dir, "go.mod"), []byte(gomod), 0o644)
-	if b, err := os.ReadFile("/repo/go.sum"); err == nil {
+	if b, err := os.ReadFile(lib + "/go.sum"); err == nil {
 		os.WriteFile(filepath.Join(dir, "go.sum"), b, 0o644)
 	}
 	build := func(src string) bool {
